@@ -11,12 +11,12 @@ CHECKS = {
  "C01": dict(
     level="model_checking", ref="DESIGN.md §4 C01",
     technique="TLA+ spec RtStream/RtStreamAbs checked by TLC + TLC-generated call sequences replayed through libovni and validated against the spec (trace validation)",
-    text="TLC explores every call sequence of the scaled faithful model (CAP=56) and every fill level of the real 2 MiB buffer in the size-abstracted model; invariants Fidelity, OnlyMarkers, HeaderFirst, Tiling, BufferBound. The spec is bound to src/rt/ovni.c by replaying every call at every one of the last 64 fill levels plus TLC -simulate walks through the real library and validating the recorded file sizes and the decoded stream with RtStreamTrace.tla; runs are repeated under an LD_PRELOAD shim that makes write() truthfully short, and three-thread programs (all threads freeing at once, with and without relocation from OVNI_TMPDIR) are validated stream by stream; scripts also run with relocation, with 7-digit pid/tid, without the execute event in front, with payloads handed over in several ovni_payload_add calls, with the wall clock stepped backwards under the shim, with every sequence of up to three small events before the first flush, with every sequence of up to three flush-separated segments made of one kind of call only (plain events / marks / fitting jumbo events), with the call under test as the last thing before the final flush, and as programs with a time base of their own that starts at zero (clocks handed over = clocks in the stream). The inductive invariant 0 <= fill < CAP and no nested flush (RtStreamInd.tla, same arithmetic module) is discharged by Apalache for the real capacity and a symbolic jumbo size.",
+    text="TLC explores every call sequence of the scaled faithful model (CAP=56) and every fill level of the real 2 MiB buffer in the size-abstracted model; invariants Fidelity, OnlyMarkers, HeaderFirst, Tiling, BufferBound. The spec is bound to src/rt/ovni.c by replaying every call at every one of the last 64 fill levels plus TLC -simulate walks through the real library and validating the recorded file sizes and the decoded stream with RtStreamTrace.tla; runs are repeated under an LD_PRELOAD shim that makes write() truthfully short, and three-thread programs (all threads freeing at once, with and without relocation from OVNI_TMPDIR) are validated stream by stream; scripts also run with relocation, with 7-digit pid/tid, without the execute event in front, with payloads handed over in several ovni_payload_add calls, with the wall clock stepped backwards under the shim, with every sequence of up to three small events before the first flush, with every sequence of up to three flush-separated segments made of one kind of call only (plain events / marks / fitting jumbo events), with the call under test as the last thing before the final flush, as programs with a time base of their own that starts at zero (clocks handed over = clocks in the stream), and with metadata updates (ovni_attr_set/flush) between the events. The inductive invariant 0 <= fill < CAP and no nested flush (RtStreamInd.tla, same arithmetic module) is discharged by Apalache for the real capacity and a symbolic jumbo size.",
     note="Payload/jumbo bytes are opaque ids in TLA+; their byte equality (MCV, clock, payload, jumbo data) is checked by the harness decoder against the driver's emit log. Logical clock abstracts CLOCK_MONOTONIC. Exhaustive only within the stated constants."),
  "C02": dict(
     level="model_checking", ref="DESIGN.md §4 C02",
     technique="TLA+ spec RtStream/RtStreamAbs checked by TLC (ClockMonotone, FlushPaired, NoNestedFlush) + Apalache inductive invariant (RtStreamInd) + negative configurations + replay of TLC-generated protocol-conformant programs through libovni, trace validation and ovniemu -l",
-    text="Same models as C01 with the validity invariants (tiling, monotone clocks, paired non-nested flush markers); the arithmetic of the pinned commit is kept as a negative configuration that TLC must refute. Every generated program is run against the real library, its stream validated by RtStreamTrace.tla (observed markers paired, clocks monotone, sizes) and the directory is fed to ovniemu -l which must accept.",
+    text="Same models as C01 with the validity invariants (tiling, monotone clocks, paired non-nested flush markers); the arithmetic of the pinned commit is kept as a negative configuration that TLC must refute. A quarter of the three-thread programs is an MPI rank (set by the thread whose directory sorts last) next to a second process of the same loom. Every generated program is run against the real library, its stream validated by RtStreamTrace.tla (observed markers paired, clocks monotone, sizes) and the directory is fed to ovniemu -l which must accept.",
     note="Programs are single-threaded scripts plus three-thread programs whose threads run such scripts concurrently (forced interleavings are C11). Exhaustive within constants; the emulator is part of the observation."),
 
  "C04": dict(
@@ -42,7 +42,7 @@ CHECKS = {
  "C08": dict(
     level="model_checking", ref="DESIGN.md §4 C08",
     technique="TLA+ spec Emu (stack machine over committed event tables EventData.tla) explored by TLC per model; transition cover + every enter/leave pair of all 8 models in 10 shapes + depth probes replayed on ovniemu -l and validated by EmuTrace.tla",
-    text="For each model a bounded instance (3 region kinds, for Nanos6 also two tasks whose execution nests on the same stack, bystander thread, thread state changes) is explored and replayed; additionally all 149 push/pop pairs of the tables are exercised (enter/leave/nested/mismatch/leave on empty/open at end under lint always; state preconditions incl. paused, cooling and warming, re-entry sampled in the quick tier) and the 512-deep stack limit is probed; the value shown for the innermost region comes from the committed table.",
+    text="For each model a bounded instance (3 region kinds, for Nanos6 also two tasks whose execution nests on the same stack, bystander thread, thread state changes) is explored and replayed; additionally all 149 push/pop pairs of the tables are exercised (enter/leave/nested/mismatch/leave on empty/open at end under lint always; state preconditions incl. paused, cooling and warming, re-entry sampled in the quick tier) the clause shapes of nOS-V and Nanos6 are run with -b -l as well, and the 512-deep stack limit is probed; the value shown for the innermost region comes from the committed table.",
     note="Tables are committed data (spec/data/events.json) transcribed from documentation and model tables; immediate re-entry is Unspecified."),
  "C17": dict(
     level="model_checking", ref="DESIGN.md §4 C17",
@@ -58,7 +58,7 @@ CHECKS = {
  "C10": dict(
     level="fault_enumeration", ref="DESIGN.md §4 C10",
     technique="TLA+ spec RtFs with a Fail alternative for every call (one fault per run) checked by TLC; every libovni system call of every scenario is failed with strace error injection on the real library and the outcome is judged by the C10 monitors of RtFsTrace.tla",
-    text="TLC checks C10a/b/c (normal return => a complete copy exists; the only complete copy is never deleted; nothing accepted lacks flushed bytes) for a single failing call anywhere, and refutes the variant that ignores copy errors. Two-thread programs (spec RtFs2) get the same treatment per thread. On the code each call index (incl. the stat family, which the model's script does not list) is failed with ENOSPC/EIO/EACCES/ESTALE (the call is not executed) and the exit kind (abort with diagnostic / normal return), the disk state of tmp and final directories and the emulator verdicts are validated.",
+    text="TLC checks C10a/b/c (normal return => a complete copy exists; the only complete copy is never deleted; nothing accepted lacks flushed bytes) for a single failing call anywhere, and refutes the variant that ignores copy errors. Two-thread programs (spec RtFs2) get the same treatment per thread, one of them with a late worker that frees its stream after ovni_proc_fini. On the code each call index (incl. the stat family, which the model's script does not list) is failed with ENOSPC/EIO/EACCES/ESTALE (the call is not executed) and the exit kind (abort with diagnostic / normal return), the disk state of tmp and final directories and the emulator verdicts are validated.",
     note="Error injection skips the call (no partial effect); truthful short writes are injected separately through an LD_PRELOAD shim (every write returns at most k bytes) and must leave complete streams. Faults are single."),
  "C11": dict(
     level="model_checking", ref="DESIGN.md §4 C11",
@@ -84,7 +84,7 @@ CHECKS = {
  "C18": dict(
     level="model_checking", ref="DESIGN.md §4 C18",
     technique="TLA+ spec Catalogue (over EmuFull + committed event tables): witness contexts by TLC reachability, verdict for every code of the 8 x 94 x 94 code space, Decode of description templates; probes and decodings replayed on ovnievents / ovniemu / ovnidump",
-    text="TLC finds for each of the 348 listed events the shortest history after which it is accepted, evaluates the reference semantics on all 70,688 printable three-character codes plus the single-bit changes and bit-7 images of every listed code (thorough: all 397,832 codes with bytes 33..255) (invariant: rejected exactly when neither listed nor excepted) and computes the expected ovnidump text for argument vectors (integers over the whole range of each type, labels incl. UTF-8 bytes); ovnievents output is compared with the committed table in both directions, every listed event is replayed in its witness context, unlisted codes are probed (quick: neighbourhood + sample + payload-shaped probes; thorough: the whole space) and decodings compared, per model and in traces that mix all models so that codes differing in the model byte only are neighbours; unlisted, not excepted codes are dumped as well and must get no description.",
+    text="TLC finds for each of the 348 listed events the shortest history after which it is accepted, evaluates the reference semantics on all 70,688 printable three-character codes plus the single-bit changes and bit-7 images of every listed code (thorough: all 397,832 codes with bytes 33..255) (invariant: rejected exactly when neither listed nor excepted) and computes the expected ovnidump text for argument vectors (integers over the whole range of each type, labels incl. UTF-8 bytes); ovnievents output is compared with the committed table in both directions, every listed event is replayed in its witness context (and once more with the thread switched out by the kernel model), unlisted codes are probed (quick: neighbourhood + sample + payload-shaped probes; thorough: the whole space) and decodings compared, per model and in traces that mix all models so that codes differing in the model byte only are neighbours; unlisted, not excepted codes are dumped as well and must get no description.",
     note="The table is committed data; printf formatting is reproduced for the conversions the catalogue uses."),
  "C20": dict(
     level="model_checking", ref="DESIGN.md §4 C20",
@@ -106,13 +106,13 @@ CHECKS = {
  "C16": dict(
     level="model_checking", ref="DESIGN.md §4 C16",
     technique="TLA+ spec OvniSort (property layer SortedStablePermutation/PrefixUntouched/Idempotent + implementation layer: region automaton, look-back ring, find_destination, stable re-sort, ring rebuild) checked by TLC for refinement over all small streams; exported streams replayed through ovnisort / ovnisort -c / ovniemu and random larger runs validated by OvniSortTrace.tla",
-    text="TLC explores every stream of <=6 events over 3-4 clock values with regions, jumbo events and several ring sizes (0.77M states quick, 9.8M thorough): Impl => Property, tightness of the look-back precondition, idempotence, five refuted negative configurations. ~7400 exported (stream, ring) pairs are materialised byte for byte and the tool's exit status, output order, size, untouched prefix, second run, check mode and emulator verdict compared with TLC's; random streams up to thousands of events and traces with two streams (the look-back ring must not leak between streams) are validated in the recorded direction; a third of all cases is written with clocks seconds apart (differences beyond 2^31 ns), about half of the normal events carry no payload, and streams of ~3000 events dominated by one region that belongs near the start are sorted with the default window.",
+    text="TLC explores every stream of <=6 events over 3-4 clock values with regions, jumbo events and several ring sizes (0.77M states quick, 9.8M thorough): Impl => Property, tightness of the look-back precondition, idempotence, five refuted negative configurations. ~7400 exported (stream, ring) pairs are materialised byte for byte and the tool's exit status, output order, size, untouched prefix, second run, check mode and emulator verdict compared with TLC's; random streams up to thousands of events and traces with two streams (the look-back ring must not leak between streams; a stream that cannot be sorted followed by a sorted one must still fail the run) are validated in the recorded direction; a third of all cases is written with clocks seconds apart (differences beyond 2^31 ns), about half of the normal events carry no payload, and streams of ~3000 events dominated by one region that belongs near the start are sorted with the default window.",
     note="Stability relies on glibc's merge-sort qsort; outside the preconditions the tool may fail; exit 0 always means a sorted stream (fixed defect c7e4054); a second run may fail when the sorted stream no longer satisfies the look-back (file unchanged)."),
 
  "C19": dict(
     level="exploration", ref="DESIGN.md §4 C19 (incl. its stated limit)",
     technique="TLA+ spec Decoder (stream decoder with C integer semantics scaled to 8 bits: guarded variant satisfies CursorInBounds/Progress/HeaderReadInBounds/ReadsWithinEvent, the unguarded arithmetic of the pinned commit is refuted) used to generate the structure-aware input family; all four tools run on it from the ASan+UBSan build with heap-buffer stream loading (hook H1) under timeout",
-    text="TLC proves the guarded decoder design within scaled integers (58k states quick, 23M thorough) and refutes each invariant on the arithmetic of the pinned commit; the transition/boundary classes of the model plus structure-aware mutations (size fields, flags, truncations, payload shapes per handler, sort windows wider than 2^31/2^32 ns, unterminated strings and labels around the 1 KiB line buffers, every metadata key x JSON type, random stage) give ~6300 inputs (quick) x up to 7 tool invocations (ovniemu -l, ovniemu -d, ovnidump, ovnitop, ovnisort -c, ovnisort, ovnisort -n 4 so that the look-back ring wraps); a case fails iff a tool dies by a signal, times out, a sanitizer reports or the exit status is not 0/1; failures are grouped by signature.",
+    text="TLC proves the guarded decoder design within scaled integers (58k states quick, 23M thorough) and refutes each invariant on the arithmetic of the pinned commit; the transition/boundary classes of the model plus structure-aware mutations (size fields, flags, truncations, payload shapes per handler, sort windows wider than 2^31/2^32 ns, unterminated strings and labels around the 1 KiB line buffers, every metadata key x JSON type, random stage) give ~6400 inputs (quick; a quarter with a clock offset table next to the streams, some with non-thread streams) x up to 7 tool invocations (ovniemu -l, ovniemu -d, ovnidump, ovnitop, ovnisort -c, ovnisort, ovnisort -n 4 so that the look-back ring wraps); a case fails iff a tool dies by a signal, times out, a sanitizer reports or the exit status is not 0/1; failures are grouped by signature.",
     note="A TLA+ model cannot establish memory safety of C: claimed is the decoder design within scaled integers plus absence of crashes/hangs/sanitizer reports on the generated family; ASan/UBSan are the observation channel."),
 }
 
